@@ -154,7 +154,7 @@ def _layer(res, tier, lo, hi):
                     cmdline = [ExtraBuiltins(["cmd"], from_command_line=True)]
                 elif kind == "bool":
                     cmdline = [ConfigOption.registry["undefined_name"](False, from_command_line=True)]
-            case = {"mode": "layer", "cfg": [kind, nf, list(assign), cmd, ef], "order": order}
+            case = {"mode": "layer", "cfg": [kind, nf, list(assign), cmd, ef], "order": order, "tier": tier, "unit_lo": lo}
             try:
                 opts = Options.from_option_list(cmdline, config_file_path=main)
             except Exception as e:
@@ -285,11 +285,18 @@ def replay(case):
     else:
         kind, nf, assign, cmd, ef = case["cfg"]
         cfg = (kind, nf, tuple(assign), cmd, ef)
-        for tier in ("quick", "thorough"):
+        for tier in ([case["tier"]] if "tier" in case else ["quick", "thorough"]):
             cs = configs(tier)
             if cfg in cs:
                 i = cs.index(cfg)
                 _layer(res, tier, i, i + 1)
+                if not res.viol and "unit_lo" in case:
+                    # not reproduced alone: the stack is resolved again after the stacks that preceded it in its unit (option resolution that depends on
+                    # configurations parsed earlier in the same process is a violation of the precedence rule as well; the replay then needs that history)
+                    res = UnitResult()
+                    _layer(res, tier, case["unit_lo"], i + 1)
+                    for v in res.viol.values():
+                        v["msg"] += "\n(only after the %d configuration stacks parsed before it in the same process: resolution depends on process history)" % (i - case["unit_lo"])
                 break
     return list(res.viol.values())
 
